@@ -9,13 +9,16 @@ use std::hash::{Hash, Hasher};
 pub fn hash_source_ip(packet: &[u8]) -> usize {
     // Skip Ethernet header (14 bytes) if present
     // Both IPv4 (0x0800) and IPv6 (0x86DD) use same offset
-    let ip_start: usize = if packet.len() > 14
-        && ((packet[12] == 0x08 && packet[13] == 0x00)
-            || (packet[12] == 0x86 && packet[13] == 0xDD))
-    {
-        14
+    // Under Ethernet framing the EtherType says which IP version follows, and that is what the
+    // packet parser goes by; the version nibble only decides for raw IP packets
+    let (ip_start, framed_version): (usize, Option<u8>) = if packet.len() > 14 {
+        match (packet[12], packet[13]) {
+            (0x08, 0x00) => (14, Some(4)),
+            (0x86, 0xDD) => (14, Some(6)),
+            _ => (0, None), // Raw IP packet
+        }
     } else {
-        0 // Raw IP packet
+        (0, None)
     };
 
     let min_length = ip_start.saturating_add(20);
@@ -25,7 +28,7 @@ pub fn hash_source_ip(packet: &[u8]) -> usize {
     }
 
     let ip_packet = &packet[ip_start..];
-    let version = (ip_packet[0] >> 4) & 0x0F;
+    let version = framed_version.unwrap_or((ip_packet[0] >> 4) & 0x0F);
 
     match version {
         4 => {
